@@ -48,4 +48,5 @@ let () = read_lines_iter (fun line ->
           channels back afterwards, so the set is unchanged *)
        Printf.printf "allowed=[%s] mem=%s\n"
          (String.concat ";" (List.map (fun (r, e, t, _) -> Printf.sprintf "%s/%s/%d" (csv r) e t) l)) (mem s))
+  | ["probe"; _] -> print_endline "probe ok"   (* implementation-only directed scenario *)
   | _ -> Printf.printf "E unknown op: %s\n" line)
